@@ -397,14 +397,26 @@ def _bilinear(W, repo, record, front):
         for nm in ('__mul__', '__matmul__', '__rmatmul__'):
             fi = repo.resolve_method(xa.cls, nm)
             n += 1
-            # static form: inside the method, the RoAffine result branch is guarded by `not self.fixed`
-            ok = False
-            for node in walk_no_nested(fi.node):
-                if isinstance(node, ast.If) and 'RoAffine' in ntext(node.test):
-                    for sub in node.body:
-                        if isinstance(sub, ast.If) and ntext(sub.test) == 'not self.fixed' and \
-                                any(isinstance(s, ast.Raise) for s in sub.body):
-                            ok = True
+            # path form: every construction of the bi-affine result DecRoAffine(..) in the method is
+            # reached only past a raising test of `not self.fixed`
+            from rsx.flow import MustFlow
+            from rsx.loader import body_stmts
+
+            class _G(MustFlow):
+                def __init__(self):
+                    super().__init__()
+                    self.sites = []
+
+                def visit(self, node, state):
+                    for c in ast.walk(node):
+                        if isinstance(c, ast.Call) and isinstance(c.func, ast.Name) and c.func.id == 'DecRoAffine':
+                            self.sites.append(('cond', False, 'not self.fixed') in state or
+                                              ('cond', True, 'self.fixed') in state)
+            g = _G()
+            g.run(body_stmts(fi))
+            if not g.sites:
+                raise AnalysisError('R11: %s no longer constructs DecRoAffine(..): bi-affine branch not found' % fi.fq)
+            ok = all(g.sites)
             if not ok:
                 record('DecAffine', nm, 'adaptive decision x random variable',
                        'the bi-affine result is returned without `if not self.fixed: raise`')
